@@ -1,5 +1,17 @@
-import SluVerif.Props.C04
+import SluVerif.Props.C04Global
 #print axioms Slu.dequeue_spec
 #print axioms Slu.pickPanel_spec
 #print axioms Slu.takePanel_spec
 #print axioms Slu.schedule_spec
+#print axioms Slu.schedule_frame
+#print axioms Slu.sysInv_loop
+#print axioms Slu.sysInv_finish
+#print axioms Slu.sysInv_sched
+#print axioms Slu.sysInv_of_initOk
+#print axioms Slu.global_invariant
+#print axioms Slu.global_tasks_remain
+#print axioms Slu.global_queue_bounded
+#print axioms Slu.global_handouts_nodup
+#print axioms Slu.global_owner_unique
+#print axioms Slu.taken_monotone
+#print axioms Slu.handout_untaken
